@@ -750,14 +750,14 @@ class UnionUnmarshaller(AbstractUnmarshaller[UnionT], tp.Generic[UnionT]):
             ValueError: If `val` cannot be unmarshalled into any member type.
         """
         # A one-shot iterator can only be read once: a member which rejects it half-way
-        #   through would leave the next member the remainder. Read it up front.
-        if isinstance(val, tp.Iterator):
-            val = [*val]
+        #   through would leave the next member the remainder. Read it up front and
+        #   hand every member an iterator of its own.
+        items = [*val] if isinstance(val, tp.Iterator) else None
         for routine in self.ordered_routines:
             # Whichever error a member uses to reject the input (`ValueError`,
             #   `decimal.InvalidOperation`, `KeyError`, ...), try the next one.
             try:
-                unmarshalled = routine(val)
+                unmarshalled = routine(val if items is None else iter(items))
                 return unmarshalled
             except RecursionError:
                 raise
